@@ -40,6 +40,9 @@ func minimise(def *checkDef, v Violation) Violation {
 			if rep.Plan.TruncAt >= 0 {
 				p.TruncAt = min(rep.Plan.TruncAt, n)
 			}
+			if rep.Plan.ErrAt >= 0 {
+				p.ErrAt, p.ErrWithData = min(rep.Plan.ErrAt, n), rep.Plan.ErrWithData
+			}
 			rep2 := rep
 			rep2.Plan = p
 			if nv := def.replay(&rep2); nv != nil && nv.Class == class {
